@@ -69,3 +69,34 @@ func MarkRunning(on bool) {
 
 // Tick records scheduler progress.
 func Tick() { atomic.AddInt64(&progress, 1) }
+
+// Blocked reports whether t is parked in an operation with no enabled
+// alternative, and the description of that operation.
+func (w *World) Blocked(t *Task) (bool, string) {
+	if t == nil || t.done || t.op == nil {
+		return false, ""
+	}
+	return len(t.op.Ready()) == 0, t.op.Desc
+}
+
+// Quiesce parks the calling task until no other task has an enabled
+// operation (everything the program set in motion has settled). Timers are
+// not waited for.
+func Quiesce() {
+	w := W
+	self := w.cur
+	Point(&Op{Desc: "quiesce", Ready: func() []int {
+		for _, t := range w.tasks {
+			if t == self || t.done || t.op == nil {
+				continue
+			}
+			if t.op.Desc == "quiesce" {
+				continue
+			}
+			if len(t.op.Ready()) > 0 {
+				return nil
+			}
+		}
+		return []int{0}
+	}, Fire: func(int) {}})
+}
